@@ -175,6 +175,8 @@ static void phase_post(uint64_t) {
   vf_check(g_held == 0, "all holding sections ended");
   // documented precondition of ~ResourcePool: all resources are back (established by the handles' destructors)
   checkQueueIsFull(pool(), g_size);
+  // ~ResourcePool's documented precondition (it would block forever otherwise); its violation was reported above
+  if (pool().pool_.n_ != g_size) return;
   pool().~Pool();
   checkAllDestroyedOnce(g_size);
 }
